@@ -1,5 +1,6 @@
 """C19 - out-of-band messages: intact or absent, never disturb the stream (DESIGN.md section 5, C19)."""
 import vcheck as V
+import udp_common as U
 
 META = {
     'engine': 'frame',
@@ -18,6 +19,7 @@ def run(ctx):
                             "OOB and data datagrams of real sessions vs coq/frame (spec_decode, pp_step with OOB requests "
                             "interleaved, encode_oob/fec_encode = the real fecEncoder with and without interleaved OOB)")
     V.merge_report(ctx, rep, summ)
+    U.run_parts(ctx, ["oob"])
     if ctx.broken and not ctx.violations and ctx.quick():
         rep2, _ = V.harness_report(ctx, "^TestVerifC19$", "C19.report.json", env={"VERIF_TIER": "thorough"}, files=FILES)
         V.merge_report(ctx, rep2)
